@@ -28,7 +28,7 @@ CHECKS = {
          "DESIGN.md §5 C16"),
  "C04": ("model_checking",
          "bounded-exhaustive enumeration of pre-login sessions on the real connection loop plus stateless schedule exploration (deviation-bounded DFS with hold-back) of a refused and an accepted login in flight together",
-         "~3,800 sessions (handshake variants x first transaction of any type x credential alphabets x four account databases incl. malformed stored hashes x banned/not x one or two appended requests) decide logged-in against an independent bcrypt reference and check bytes received, world snapshot and an observer's inbox; all schedules of two simultaneous logins with at most 2 (thorough 3) deviations check that the refused peer receives nothing but greeting and one error.",
+         "~3,800 sessions (handshake variants x first transaction of any type x credential alphabets x four account databases incl. malformed stored hashes x banned/not x one or two appended requests) decide logged-in against an independent bcrypt reference and check bytes received, world snapshot and an observer's inbox; all schedules of two simultaneous logins with at most 2 (thorough 3) deviations check that the refused peer receives nothing but greeting and one error; an invalid handshake split around another peer's valid one is still refused.",
          "Credential alphabets are small; appended transactions from a 60-request corpus; scheduling points at sync/atomic/channel/connection/file-system operations.",
          "DESIGN.md §5 C04"),
  "C13": ("model_checking",
@@ -42,8 +42,8 @@ CHECKS = {
          "Renames only onto unused logins; small login/password alphabets; whether a stored hash belongs to a password is asked of the server's own login check.",
          "DESIGN.md §5 C15"),
  "C12": ("model_checking",
-         "explicit-state breadth-first search over chat histories replayed on the real server, deliveries compared with a reference chat model after every operation",
-         "Every history up to depth 4 (thorough 5) over 44 operations of three clients with (read,send) privileges (1,1),(0,1),(1,0) and name lengths 1/13/14, starting from the all-connected state: after the last operation the multiset of (recipient, transaction) deliveries — public lines, private lines, invitations, join/leave/subject notices, decline notices — must equal the model's, texts in protocol format cut at 8192 bytes, and nothing may reach a user who left or declined, or an outsider without chat privileges.",
+         "explicit-state breadth-first search over chat histories replayed on the real server, deliveries compared with a reference chat model after every operation; stateless schedule exploration (deviation-bounded DFS) of pairs of concurrent chat operations",
+         "Every history up to depth 4 (thorough 5) over 47 operations of three clients with (read,send) privileges (1,1),(0,1),(1,0) and name lengths 1/13/14, starting from the all-connected state: after the last operation the multiset of (recipient, transaction) deliveries — public lines, private lines, invitations, join/leave/subject notices, decline notices — must equal the model's, texts in protocol format cut at 8192 bytes, and nothing may reach a user who left or declined, or an outsider without chat privileges. Every usable pair of operations by two clients from three base states is also issued concurrently under every schedule with at most 1 (thorough 2) deviations: what both sequential orders deliver is delivered, everything delivered is delivered by one and the same order.",
          "At most two private chats; operations address existing users/chats; default schedule.",
          "DESIGN.md §5 C12"),
  "C17": ("model_checking",
@@ -68,12 +68,12 @@ CHECKS = {
          "DESIGN.md §5 C09"),
  "C02": ("model_checking",
          "deviation-bounded environment exploration: every placement of up to two read-boundary cuts (and fixed-size segmentations) of five scripted client sessions on the real connection and transfer loops, each compared with the unsplit run",
-         "~19,000 segmentations (thorough ~250,000) of a control session (incl. a 5,000-byte line that forces the scanner buffer to grow), a file upload, a folder upload, a file download and a folder download: every single cut, pairs of cuts in the header regions, pieces of 1..16 bytes; the normalised multiset of transactions received, the transfer bytes and the directory snapshot must equal the unsplit run's.",
+         "~19,000 segmentations (thorough ~250,000) of a control session (incl. a 5,000-byte line that forces the scanner buffer to grow), a file upload, a folder upload, a file download and a folder download: every single cut, pairs of cuts in the header regions, pieces of 1..16 bytes; the normalised multiset of transactions received, the transfer bytes and the directory snapshot must equal the unsplit run's; a pipelined non-commuting session must give the same observation under every schedule with at most 1 (thorough 2) deviations; two overlapping uploads with an interleaved split preamble.",
          "Sessions are fixed well-formed scripts; default thread schedule; quick tier restricts pairs of cuts to the first 96 bytes.",
          "DESIGN.md §5 C02"),
  "C10": ("exploration",
          "bounded-exhaustive enumeration of directory trees x per-file action vectors with a reference folder-transfer client on the real transfer path, plus cut enumeration of folder uploads",
-         "All trees with up to 4 (thorough 5) entries over small name/size alphabets (incl. dot files, empty folders, hidden folders with visible children): download with every action vector over {send, resume@0, resume@1, resume@size, skip}; upload into three target states; upload-then-download; folder upload reset at every client byte and retried. Announced count = headers; headers = visible entries depth-first once each; size prefix and bytes per action; resulting tree = streamed tree; nothing partial under a final name.",
+         "All trees with up to 4 (thorough 5) entries over small name/size alphabets (incl. dot files, empty folders, hidden folders with visible children): download with every action vector over {send, resume@0, resume@1, resume@size, skip}; upload into three target states; upload-then-download; folder upload reset at every client byte (also inside a resumed item) and retried; folders holding files with stored information/resource forks. Announced count = headers; headers = visible entries depth-first once each; size prefix and bytes per action; resulting tree = streamed tree; nothing partial under a final name.",
          "For trees with visible entries below a hidden folder only count = headers is checked; no symlinks.",
          "DESIGN.md §5 C10"),
  "C07": ("exploration",
